@@ -673,6 +673,13 @@ func TestHarness(t *testing.T) {
 		}
 		for _, h := range hs {
 			if len(h.Conf) >= 2 && h.Conf[0] == "9" {
+				if len(h.Conf) >= 3 && h.Conf[2] == "2" { // controlled-scheduler tier
+					seed := common.AtoU64(h.Conf[1])
+					h2 := &common.History{}
+					synctest.Test(t, func(*testing.T) { runVS(h2, seed) })
+					w.Put(h2)
+					continue
+				}
 				if h.Conf[1] == "0" { // the NAT port exhaustion history
 					h2 := &common.History{}
 					synctest.Test(t, func(*testing.T) { runExhaustion(h2) })
@@ -701,6 +708,12 @@ func TestHarness(t *testing.T) {
 		rng := common.Rng(a.Seed, 0x01)
 		for i := 0; i < a.N; i++ {
 			h := &common.History{}
+			if a.Mode == "vs" {
+				seed := rng.Uint64()
+				synctest.Test(t, func(*testing.T) { runVS(h, seed) })
+				w.Put(h)
+				continue
+			}
 			if a.Mode == "conc" {
 				// concurrent tier: conf = 9, seed, history index; the schedule is the Go runtime's
 				seed := rng.Uint64()
